@@ -2,6 +2,8 @@ package props
 
 import (
 	"fmt"
+	"reflect"
+	"sort"
 	"strings"
 	"testing"
 
@@ -381,11 +383,28 @@ func TestC18Type(t *testing.T) {
 		if p := oracle.Try(func() {
 			if usedBefore {
 				src.New()
+				src.Fields()
 			}
 
 			cp = src.Copy()
 		}); p != nil {
 			t.Fatalf("C18 violated: Type.Copy %s", p)
+		}
+
+		// Fields() of a type lists the names of its two maps, sorted -
+		// whatever the other type was asked or made to do.
+		fieldsOK := func(typ *jsonapi.Type, which string) {
+			want := append(gen.SortedKeys(typ.Attrs), gen.SortedKeys(typ.Rels)...)
+			sort.Strings(want)
+
+			var got []string
+			if p := oracle.Try(func() { got = typ.Fields() }); p != nil {
+				t.Fatalf("C18 violated: Fields() of the %s type %s", which, p)
+			}
+
+			if len(got)+len(want) > 0 && !reflect.DeepEqual(got, want) {
+				t.Fatalf("C18 violated: Fields() of the %s type is %q, its maps hold %q", which, got, want)
+			}
 		}
 
 		if a, b := oracle.SnapshotType(src), oracle.SnapshotType(cp); a != b {
@@ -459,6 +478,12 @@ func TestC18Type(t *testing.T) {
 			}
 
 			history = append(history, op+" on the "+xname)
+
+			if rapid.Bool().Draw(t, "askfields") {
+				fieldsOK(x, xname)
+			}
+
+			fieldsOK(y, "other")
 
 			if after := oracle.SnapshotType(*y); after != snap {
 				t.Fatalf("C18 violated: %s on the %s type changed the other one\nbefore: %s\nafter:  %s\nhistory: %s", op, xname, snap, after, strings.Join(history, "; "))
